@@ -1,5 +1,5 @@
 """Run Kani harnesses compiled inside the real crate and parse per-check results."""
-import glob, json, os, re, subprocess, time
+import glob, json, os, re, subprocess, threading, time
 
 REPO = os.environ.get("VERIF_REPO", "/repo")
 ROOT = os.path.dirname(os.path.dirname(os.path.abspath(__file__)))
@@ -108,7 +108,7 @@ def scan_harnesses():
     return out
 
 
-def run_harnesses(harnesses, jobs=4, harness_timeout=900, outer_timeout=3600, tag="run"):
+def run_harnesses(harnesses, jobs=4, harness_timeout=900, outer_timeout=3600, tag="run", mem_limit_gb=14):
     """Run the given harness dicts in one cargo-kani invocation. Returns (results, raw) where
     results maps full harness name -> dict(status, checks[], duration_ms)."""
     os.makedirs(BUILD, exist_ok=True)
@@ -121,14 +121,37 @@ def run_harnesses(harnesses, jobs=4, harness_timeout=900, outer_timeout=3600, ta
     cmd += ["--harness-timeout", f"{harness_timeout}s", "-j", str(jobs), "--output-format", "terse",
             "--export-json", jpath]
     t0 = time.time()
+    killed = []
+    proc = subprocess.Popen(cmd, cwd=REPO, env=ENV, stdout=subprocess.PIPE, stderr=subprocess.STDOUT, text=True,
+                            start_new_session=True)
+    stop = threading.Event()
+
+    def watchdog():
+        # kill any CBMC process of this run whose RSS passes the limit (-> harness undecided, never a violation)
+        while not stop.wait(5):
+            try:
+                ps = subprocess.run(["ps", "-eo", "pid,sid,rss,comm"], capture_output=True, text=True).stdout
+                for line in ps.splitlines()[1:]:
+                    f = line.split()
+                    if len(f) >= 4 and f[3] == "cbmc" and int(f[1]) == proc.pid and int(f[2]) > mem_limit_gb * 1024 * 1024:
+                        os.kill(int(f[0]), 9)
+                        killed.append(int(f[0]))
+            except Exception:
+                pass
+
+    th = threading.Thread(target=watchdog, daemon=True)
+    th.start()
     try:
-        p = subprocess.run(cmd, cwd=REPO, env=ENV, capture_output=True, text=True, timeout=outer_timeout)
-        out, rc = p.stdout + "\n" + p.stderr, p.returncode
-    except subprocess.TimeoutExpired as e:
-        out = ((e.stdout or b"").decode(errors="replace") if isinstance(e.stdout, bytes) else (e.stdout or "")) + "\n[outer timeout]"
+        out, _ = proc.communicate(timeout=outer_timeout)
+        rc = proc.returncode
+    except subprocess.TimeoutExpired:
+        os.killpg(proc.pid, 9)
+        out, _ = proc.communicate()
+        out = (out or "") + "\n[outer timeout]"
         rc = -9
+    stop.set()
     wall = time.time() - t0
-    raw = {"cmd": " ".join(cmd), "rc": rc, "wall_s": round(wall, 1), "tail": out[-8000:]}
+    raw = {"cmd": " ".join(cmd), "rc": rc, "wall_s": round(wall, 1), "tail": out[-8000:], "killed_for_memory": killed}
     results = {}
     data = None
     if os.path.exists(jpath):
